@@ -53,6 +53,9 @@ def run_mode(ck, build, kinds, rulemap, helper_fns=True, floor_obl=300):
     if "LEN" in rulemap:
         for f in fns:
             outparam_rule(ck, f, rulemap["LEN"], label)
+    if "KEYINIT" in rulemap:
+        for f in fns:
+            keyinit_rule(ck, f, rulemap["KEYINIT"], label)
     for f in fns:
         small_broken = None
         if "SMALL" in rulemap or "SMALLIO" in rulemap or "SMALLMEM" in rulemap:
@@ -96,6 +99,50 @@ def outparam_rule(ck, f, rule, label):
         ck.ob(not bad, rule, f.name, "length-out-write-only[%s]" % label, "*%s is never read before it has been stored (%d load(s), %d store(s))" % (nm, len(loads), len(stores)),
               "*%s is read before the function has stored it: the result depends on what the caller's variable held" % nm,
               where=relpath(bad[0].where) if bad else relpath("%s:%d" % (f.file, f.line)))
+
+
+def keyinit_rule(ck, f, rule, label):
+    """every key word of the local cipher state is stored before the first call that is handed the state: a word left out is whatever the
+    stack held (complete where all stores into the state in front of that call have constant offsets; a loop or helper that fills the key
+    with a variable index is left to the summaries)"""
+    from .. import ir
+    import re as _re
+    m = _re.match(r"tinyjambu_(128|192|256)_", f.name)
+    if not m:
+        return
+    nk = int(m.group(1)) // 32
+    first = None
+    for I in f.insts:
+        if I.op == "call" and not I.is_dbg() and not I.is_lifetime() and (I.callee or "").startswith("tinyjambu_"):
+            args = I.call_args()
+            if args:
+                b, o = ir.ptr_base(f, tuple(args[0]))
+                Ib = f.inst(b) if b and b[0] == "i" else None
+                if Ib is not None and Ib.op == "alloca" and o == 0:
+                    first = (I, b)
+                    break
+    if first is None:
+        return
+    call, base = first
+    offs, variable = set(), False
+    for S in f.insts:
+        if S.op != "store":
+            continue
+        b, o = ir.ptr_base(f, tuple(S.ops[1]))
+        if b != base:
+            continue
+        if o is None:
+            variable = True
+        elif f.dominates(S.id, call.id):
+            for k_ in range(S.get("size") or 4):
+                offs.add(o + k_)
+    other = [I for I in f.insts if I.op == "call" and I.id != call.id and not I.is_dbg() and not I.is_lifetime() and f.dominates(I.id, call.id)
+             and any(ir.ptr_base(f, tuple(a))[0] == base for a in I.call_args() if isinstance(a, (list, tuple)) and a and a[0] in ("i", "a"))]
+    if variable or other:
+        return
+    missing = [i for i in range(nk) if not all((16 + 4 * i + k_) in offs for k_ in range(4))]
+    ck.ob(not missing, rule, f.name, "key-words-stored[%s]" % label, "all %d key words of the local state are stored before %s is called" % (nk, call.callee),
+          "key word(s) %s of the local state are never stored before %s is called: the cipher runs on whatever the stack held there" % (missing, call.callee), where=relpath(call.where))
 
 
 def run_pairs(ck, mod, kinds, rulemap, label="H/N0", sizes=("128", "192", "256")):
